@@ -499,12 +499,10 @@ theorem applySub_ctx_full (kp : Nat → Bool) (st : St) (a : Nat) (b : Int) (s :
         cases y with
         | none => trivial
         | some _ =>
-          refine hwf.push (a :: ps) actions next ?_ ?_ (by omega) (fun en hen => by have := hbe en hen; omega)
-          · exact List.pairwise_cons.mpr ⟨fun z hz => (h2 z hz).1, lt_le_pairwise h1⟩
+          refine hwf.push ps actions next ?_ ?_ (by omega) (fun en hen => by have := hbe en hen; omega)
+          · exact lt_le_pairwise h1
           · intro z hz
-            rcases List.mem_cons.mp hz with hz | hz
-            · subst hz; exact h4
-            · exact (h2 z hz).2
+            exact (h2 z hz).2
   | gsub11 _ _ => simp [Subtable.contextual] at hs
   | gsub12 _ _ => simp [Subtable.contextual] at hs
   | gsub21 _ _ => simp [Subtable.contextual] at hs
@@ -675,9 +673,17 @@ theorem applyLookups_full (B : Nat) (ll : LookupList) (gd : Gdef) (hsh : readerS
     · exact ih st hst
     · rename_i lk hlk
       have hmem : lk ∈ ll := List.mem_of_getElem? hlk
-      refine Safe.bind (lookupLoop_safe' B ll gd lk
-        (fun st pos h0 hlt hs => applyAtRec_full B ll gd hsh lk hmem st pos h0 hlt hs)
-        st.seq.length st 0 (Int.le_refl _) hst) ?_
+      have hgl : guardedLL ll = true := by
+        unfold readerShapedLL at hsh; simp only [Bool.and_eq_true] at hsh; exact hsh.1
+      have hone : Safe (fun st' => st'.stack = []) (applyLookup B ll gd lk st) := by
+        unfold applyLookup
+        split
+        · rename_i hrev
+          exact revLoop_safe gd lk (List.all_eq_true.mp hgl lk hmem) hrev _ st (Nat.le_refl _) hst
+        · exact lookupLoop_safe' B ll gd lk
+            (fun st pos h0 hlt hs => applyAtRec_full B ll gd hsh lk hmem st pos h0 hlt hs)
+            st.seq.length st 0 (Int.le_refl _) hst
+      refine Safe.bind hone ?_
       intro st1 _ h1
       exact ih st1 h1
 
